@@ -395,5 +395,221 @@ Proof.
            apply (agree_frame (mv (ma_off T) + 16) (mv (ma_off T) + 24)); try lia.
            apply frame_in_patch; rewrite ?zlen_be_enc; lia.
 Qed.
-(*SURGERY-CONTINUES*)
+
+(* ================================================================== composition *)
+Lemma clear_mv_anc a n A : 0 <= n -> clear_of a n off (off + old) -> clear_of a n (ma_off A) (ma_off A + ma_hdr A) -> anc_ok A ->
+  clear_of (mv a) n (ma_off A) (ma_off A + ma_hdr A).
+Proof.
+  intros Hn C1 C2 HA. destruct (anc_header A HA) as (F0 & Fh & Fo & _). pose proof data_nonneg.
+  unfold clear_of, mv, delta in *. destruct (off + old <=? a) eqn:E; lia.
+Qed.
+Lemma clear_mv_tab a n T : 0 <= n -> clear_of a n off (off + old) -> clear_of a n (ma_off T + 16) (ma_off T + ma_len T) -> tab_member T ->
+  clear_of (mv a) n (mv (ma_off T) + 16) (mv (ma_off T) + ma_len T).
+Proof.
+  intros Hn C1 C2 (_ & P & O & E & L & _). pose proof data_nonneg.
+  unfold clear_of, mv, delta, placed in *.
+  destruct (off + old <=? a) eqn:E1; destruct (off + old <=? ma_off T) eqn:E2; lia.
+Qed.
+Lemma member_clear_anc T A : tab_member T -> anc_ok A -> clear_of (mv (ma_off T)) (ma_len T) (ma_off A) (ma_off A + ma_hdr A).
+Proof.
+  intros (H1 & P & O & E & L & K1) HA. pose proof HA as (H2 & (k2 & K2) & P2).
+  destruct (anc_header A HA) as (F0 & Fh & Fo & _). pose proof data_nonneg.
+  destruct (segs_disjoint _ _ _ _ _ T A Hwf H1 H2) as [EQ|D]; [subst; congruence|].
+  unfold seg_of, s_hi, s_lo in D. rewrite K1, K2 in D. cbn [fst snd] in D.
+  pose proof (skip_nonneg (ma_name A)). unfold clear_of, mv, delta, placed in *.
+  destruct (off + old <=? ma_off T) eqn:E2; lia.
+Qed.
+Lemma region_clear_tab T : tab_member T -> clear_of off (zlen data) (mv (ma_off T) + 16) (mv (ma_off T) + ma_len T).
+Proof.
+  intros (_ & P & O & E & L & _). pose proof data_nonneg. unfold clear_of, mv, delta, placed in *.
+  destruct (off + old <=? ma_off T) eqn:E2; lia.
+Qed.
+
+Lemma anc_updated_transfer d g g' A : anc_ok A -> anc_updated d g A -> agree g (ma_off A) g' (ma_off A) (ma_hdr A) ->
+  anc_updated d g' A.
+Proof.
+  intros HA (U1 & U0 & U64 & U32) AG. destruct (anc_header A HA) as (F0 & Fh & Fo & F8 & Fn & F64 & F32 & Fz).
+  assert (K4 : mp4_rd g' (ma_off A) 4 = mp4_rd g (ma_off A) 4) by (symmetry; apply (agree_rd0 _ _ _ _ _ 4 AG); lia).
+  assert (K44 : mp4_rd g' (ma_off A + 4) 4 = mp4_rd g (ma_off A + 4) 4) by (symmetry; apply (agree_rd _ _ _ _ _ 4 4 AG); lia).
+  unfold anc_updated. cbv zeta.
+  split; [rewrite K44; exact U1|]. split; [intros Z0; rewrite K4; apply U0; exact Z0|]. split.
+  - intros Z1. destruct (U64 Z1) as (V1 & V2). split; [rewrite K4; exact V1|]. destruct (F64 Z1) as (Hh & _).
+    assert (K8 : mp4_rd g' (ma_off A + 8) 8 = mp4_rd g (ma_off A + 8) 8) by (symmetry; apply (agree_rd _ _ _ _ _ 8 8 AG); lia).
+    rewrite K8. exact V2.
+  - intros N0 N1. rewrite K4. apply U32; assumption.
+Qed.
+
+Lemma tab_updated_transfer w g g' T : (0 < w)%nat -> tab_member T -> mp4_table_ok f (Z.of_nat w) T = true ->
+  tab_updated w g T -> agree g (mv (ma_off T)) g' (mv (ma_off T)) (ma_len T) -> tab_updated w g' T.
+Proof.
+  intros Hw M Hok (A16 & TE) AG. destruct (table_ok_facts f (Z.of_nat w) T Hok ltac:(lia)) as (_ & C0 & CL).
+  assert (TC : mp4_rd g (mv (ma_off T) + 12) 4 = mp4_rd f (ma_off T + 12) 4) by (symmetry; apply (agree_rd _ _ _ _ _ 12 4 A16); lia).
+  split.
+  - eapply agree_trans; [exact A16|]. apply (agree_prefix _ _ _ _ _ 16 AG). nia.
+  - destruct (tab_entries_agree w _ _ _ _ _ AG) as (TE2 & _); [rewrite TC; exact C0|rewrite TC; lia|].
+    rewrite <- TE2. exact TE.
+Qed.
+
+Lemma tfhd_updated_transfer g g' T : tab_member T -> mp4_tfhd_ok f T = true ->
+  tfhd_updated g T -> agree g (mv (ma_off T)) g' (mv (ma_off T)) (ma_len T) -> tfhd_updated g' T.
+Proof.
+  intros M Hok (A12 & UF & UT) AG. destruct (tfhd_ok_facts f T Hok) as (_ & C12 & C24).
+  change (mp4_tfhd_flag f T) with (tfhd_flag f (ma_off T)) in C24.
+  split; [|split].
+  - eapply agree_trans; [exact A12|]. apply (agree_prefix _ _ _ _ _ 12 AG). lia.
+  - intros E0. eapply agree_trans; [apply UF; exact E0|exact AG].
+  - intros E1. specialize (C24 E1). destruct (UT E1) as (TB & A16 & A24).
+    destruct (tfhd_agree _ _ _ _ _ AG C24) as (_ & B2). split; [rewrite <- B2; exact TB|]. split.
+    + eapply agree_trans; [exact A16|]. apply (agree_prefix _ _ _ _ _ 16 AG). lia.
+    + eapply agree_trans; [exact A24|]. apply (agree_sub _ _ _ _ _ 24 (ma_len T - 24) AG); lia.
+Qed.
+
+Variables (f2 f' : list Z).
+Hypothesis Hrun1 : mp4_update_parents delta f1 (map ma_off As) = Ok f2.
+Hypothesis Hrun2 : mp4_update_offsets atoms delta off f2 = Ok f'.
+
+Definition all_tabs : list mp4_atom := stcos ++ co64s ++ tfhds.
+
+Lemma members_of l : (forall T, In T l -> In T all_tabs) -> Forall tab_member l.
+Proof. intros H. apply Forall_forall. intros T HT. apply member_facts. apply H. exact HT. Qed.
+
+Lemma stco_ok_all : Forall (fun T => mp4_table_ok f (Z.of_nat 4) T = true) stcos.
+Proof.
+  apply Forall_forall. intros T HT. destruct (stco_in atoms T HT) as (H1 & H2).
+  destruct (tables_ok_at f atoms Htab T H1) as (K & _ & _). apply K; exact H2.
+Qed.
+Lemma co64_ok_all : Forall (fun T => mp4_table_ok f (Z.of_nat 8) T = true) co64s.
+Proof.
+  apply Forall_forall. intros T HT. destruct (co64_in atoms T HT) as (H1 & H2).
+  destruct (tables_ok_at f atoms Htab T H1) as (_ & K & _). apply K; exact H2.
+Qed.
+Lemma tfhd_ok_all : Forall (fun T => mp4_tfhd_ok f T = true) tfhds.
+Proof.
+  apply Forall_forall. intros T HT. destruct (tfhd_in atoms T HT) as (H1 & H2).
+  destruct (tables_ok_at f atoms Htab T H1) as (_ & _ & K). apply K; exact H2.
+Qed.
+Lemma names_differ x y n m : ma_name x = n -> ma_name y = m -> n <> m -> x <> y.
+Proof. intros; congruence. Qed.
+
+Theorem surgery_result :
+  zlen f' = zlen f + delta /\
+  (forall a n, 0 <= a -> 0 <= n -> a + n <= zlen f -> clear_of a n off (off + old) ->
+     (forall A, In A As -> clear_of a n (ma_off A) (ma_off A + ma_hdr A)) ->
+     (forall T, In T all_tabs -> clear_of a n (ma_off T + 16) (ma_off T + ma_len T)) ->
+     agree f a f' (mv a) n) /\
+  agree data 0 f' off (zlen data) /\
+  (forall A, In A As -> anc_updated delta f' A) /\
+  (forall T, In T stcos -> tab_updated 4 f' T) /\
+  (forall T, In T co64s -> tab_updated 8 f' T) /\
+  (forall T, In T tfhds -> tfhd_updated f' T).
+Proof.
+  pose proof data_nonneg as Hdn. pose proof zlen_f1 as Hz1.
+  assert (Hdelta : delta = zlen data - old) by reflexivity.
+  assert (M4 : Forall tab_member stcos) by (apply members_of; intros T HT; unfold all_tabs; apply in_or_app; left; exact HT).
+  assert (M8 : Forall tab_member co64s) by (apply members_of; intros T HT; unfold all_tabs; apply in_or_app; right; apply in_or_app; left; exact HT).
+  assert (MT : Forall tab_member tfhds) by (apply members_of; intros T HT; unfold all_tabs; apply in_or_app; right; apply in_or_app; right; exact HT).
+  assert (Hanc1 : forall A, In A As -> agree f (ma_off A) f1 (ma_off A) (ma_hdr A)).
+  { intros A HA. rewrite Forall_forall in HAs. destruct (anc_header A (HAs A HA)) as (F0 & Fh & Fo & _).
+    apply agree_splice_before; lia. }
+  destruct (Z.eq_dec delta 0) as [D0|DN].
+  - (* same size: no patch at all *)
+    unfold mp4_update_parents in Hrun1. unfold mp4_update_offsets in Hrun2.
+    assert (E0 : (delta =? 0) = true) by (apply Z.eqb_eq; exact D0). rewrite E0 in Hrun1, Hrun2.
+    inversion Hrun1; subst f2. inversion Hrun2; subst f'. clear Hrun1 Hrun2.
+    split; [lia|]. split; [intros a n Ha Hn Hfa C1 _ _; apply agree_f_f1; assumption|].
+    split; [apply agree_splice_in; lia|]. split; [|split; [|split]].
+    + intros A HA. rewrite Forall_forall in HAs. pose proof (HAs A HA) as HA'.
+      destruct (anc_header A HA') as (F0 & Fh & Fo & F8 & Fn & F64 & F32 & Fz). specialize (Hanc1 A HA).
+      assert (K4 : mp4_rd f1 (ma_off A) 4 = mp4_rd f (ma_off A) 4) by (symmetry; apply (agree_rd0 _ _ _ _ _ 4 Hanc1); lia).
+      unfold anc_updated. cbv zeta. rewrite D0, Z.add_0_r.
+      split; [symmetry; apply (agree_rd _ _ _ _ _ 4 4 Hanc1); lia|]. split; [intros _; exact K4|]. split.
+      * intros Z1. destruct (F64 Z1) as (Hh & Hl). split; [exact K4|].
+        rewrite <- (agree_rd _ _ _ _ _ 8 8 Hanc1) by lia. exact Hl.
+      * intros N0 N1. rewrite K4. apply F32; assumption.
+    + intros T HT. rewrite Forall_forall in M4. pose proof (M4 T HT) as M. pose proof (member_agree_f1 T M) as AG.
+      pose proof stco_ok_all as OK. rewrite Forall_forall in OK.
+      destruct (table_ok_facts f (Z.of_nat 4) T (OK T HT) ltac:(lia)) as (_ & C0 & CL).
+      split; [apply (agree_prefix _ _ _ _ _ 16 AG); nia|].
+      destruct (tab_entries_agree 4 _ _ _ _ _ AG C0 ltac:(lia)) as (TE & _). rewrite <- TE, D0, map_shift_zero. reflexivity.
+    + intros T HT. rewrite Forall_forall in M8. pose proof (M8 T HT) as M. pose proof (member_agree_f1 T M) as AG.
+      pose proof co64_ok_all as OK. rewrite Forall_forall in OK.
+      destruct (table_ok_facts f (Z.of_nat 8) T (OK T HT) ltac:(lia)) as (_ & C0 & CL).
+      split; [apply (agree_prefix _ _ _ _ _ 16 AG); nia|].
+      destruct (tab_entries_agree 8 _ _ _ _ _ AG C0 ltac:(lia)) as (TE & _). rewrite <- TE, D0, map_shift_zero. reflexivity.
+    + intros T HT. rewrite Forall_forall in MT. pose proof (MT T HT) as M. pose proof (member_agree_f1 T M) as AG.
+      pose proof tfhd_ok_all as OK. rewrite Forall_forall in OK.
+      destruct (tfhd_ok_facts f T (OK T HT)) as (_ & C12 & C24).
+      change (mp4_tfhd_flag f T) with (tfhd_flag f (ma_off T)) in C24.
+      split; [apply (agree_prefix _ _ _ _ _ 12 AG); lia|]. split; [intros _; exact AG|].
+      intros E1. specialize (C24 E1). destruct (tfhd_agree _ _ _ _ _ AG C24) as (_ & B).
+      split; [rewrite <- B, D0, shift_zero; reflexivity|]. split.
+      * apply (agree_prefix _ _ _ _ _ 16 AG); lia.
+      * apply (agree_sub _ _ _ _ _ 24 (ma_len T - 24) AG); lia.
+  - (* the size changed: three ancestors' fields, then the three table folds *)
+    unfold mp4_update_parents in Hrun1. unfold mp4_update_offsets in Hrun2.
+    assert (E0 : (delta =? 0) = false) by (apply Z.eqb_neq; exact DN). rewrite E0 in Hrun1, Hrun2.
+    destruct (mp4_child N_moov atoms) as [moov|] eqn:Em; [|discriminate].
+    fold stcos co64s tfhds in Hrun2.
+    destruct (mp4_fold_atoms (mp4_update_table 4 delta off) f2 stcos) as [g3|] eqn:R3; [|discriminate].
+    destruct (mp4_fold_atoms (mp4_update_table 8 delta off) g3 co64s) as [g4|] eqn:R4; [|discriminate].
+    destruct (parents_fold As f1 f2 HAs HAs_nd eq_refl Hanc1 Hrun1) as (Z2 & Fr2 & U2).
+    (* members' extents survive the ancestors' patches *)
+    assert (AG2 : forall T, tab_member T -> agree f (ma_off T) f2 (mv (ma_off T)) (ma_len T)).
+    { intros T M. eapply agree_trans; [apply member_agree_f1; exact M|].
+      destruct (mv_bounds T M). apply Fr2; try lia. intros A HA. rewrite Forall_forall in HAs. apply member_clear_anc; auto. }
+    destruct (table_phase 4 stcos ltac:(lia) f2 g3 M4 (stco_nodup f atoms Hwf) stco_ok_all Z2) as (Z3 & Fr3 & U3).
+    { intros T HT. rewrite Forall_forall in M4. apply AG2. apply M4; exact HT. } { exact R3. }
+    assert (AG3 : forall T, tab_member T -> ~ In T stcos -> agree f (ma_off T) g3 (mv (ma_off T)) (ma_len T)).
+    { intros T M Hn. eapply agree_trans; [apply AG2; exact M|]. destruct (mv_bounds T M).
+      apply Fr3; try lia. intros T' HT'. rewrite Forall_forall in M4. apply leaves_apart; auto. intros ->. contradiction. }
+    assert (N48 : forall T, In T co64s -> ~ In T stcos).
+    { intros T H8 H4. destruct (stco_in atoms T H4) as (_ & E4). destruct (co64_in atoms T H8) as (_ & E8).
+      rewrite E4 in E8. discriminate. }
+    assert (N4T : forall T, In T tfhds -> ~ In T stcos).
+    { intros T H8 H4. destruct (stco_in atoms T H4) as (_ & E4). destruct (tfhd_in atoms T H8) as (_ & E8).
+      rewrite E4 in E8. discriminate. }
+    assert (N8T : forall T, In T tfhds -> ~ In T co64s).
+    { intros T H8 H4. destruct (co64_in atoms T H4) as (_ & E4). destruct (tfhd_in atoms T H8) as (_ & E8).
+      rewrite E4 in E8. discriminate. }
+    destruct (table_phase 8 co64s ltac:(lia) g3 g4 M8 (co64_nodup f atoms Hwf) co64_ok_all ltac:(lia)) as (Z4 & Fr4 & U4).
+    { intros T HT. rewrite Forall_forall in M8. apply AG3; [apply M8; exact HT|apply N48; exact HT]. } { exact R4. }
+    destruct (tfhd_phase tfhds g4 f' MT (tfhd_nodup f atoms Hwf) tfhd_ok_all ltac:(lia)) as (Z5 & Fr5 & U5).
+    { intros T HT. rewrite Forall_forall in MT. pose proof (MT T HT) as M.
+      eapply agree_trans; [apply AG3; [exact M|apply N4T; exact HT]|]. destruct (mv_bounds T M).
+      apply Fr4; try lia. intros T' HT'. rewrite Forall_forall in M8. apply leaves_apart; auto.
+      intros ->. apply (N8T T HT). exact HT'. } { exact Hrun2. }
+    (* generic: an interval clear of all table sites (new coordinates) survives the three folds *)
+    assert (Fr25 : forall a n, 0 <= a -> a + n <= zlen f1 ->
+               (forall T, In T all_tabs -> clear_of a n (mv (ma_off T) + 16) (mv (ma_off T) + ma_len T)) -> agree f2 a f' a n).
+    { intros a n Ha Hn Hc. eapply agree_trans; [apply Fr3; try lia|eapply agree_trans; [apply Fr4; try lia|apply Fr5; try lia]].
+      - intros T HT. apply Hc. unfold all_tabs. apply in_or_app. left; exact HT.
+      - intros T HT. apply Hc. unfold all_tabs. apply in_or_app. right. apply in_or_app. left; exact HT.
+      - intros T HT. apply Hc. unfold all_tabs. apply in_or_app. right. apply in_or_app. right; exact HT. }
+    split; [lia|]. split; [|split; [|split; [|split; [|split]]]].
+    + intros a n Ha Hn Hfa C1 CA CT.
+      assert (Hb : 0 <= mv a /\ mv a + n <= zlen f1).
+      { unfold mv, clear_of, delta in *. destruct (off + old <=? a) eqn:E; lia. }
+      eapply agree_trans; [apply agree_f_f1; assumption|].
+      eapply agree_trans; [apply Fr2; try lia|apply Fr25; try lia].
+      * intros A HA. rewrite Forall_forall in HAs. apply clear_mv_anc; auto.
+      * intros T HT. apply clear_mv_tab; auto. apply member_facts; exact HT.
+    + apply (agree_trans _ _ f1 off); [unfold f1; apply agree_splice_in; lia|].
+      eapply agree_trans; [apply Fr2; try lia|apply Fr25; try lia].
+      * intros A HA. rewrite Forall_forall in HAs. destruct (anc_header A (HAs A HA)) as (F0 & Fh & Fo & _). unfold clear_of. lia.
+      * intros T HT. apply region_clear_tab. apply member_facts; exact HT.
+    + intros A HA. rewrite Forall_forall in HAs. pose proof (HAs A HA) as HA'.
+      apply (anc_updated_transfer delta f2 f' A HA' (U2 A HA)).
+      destruct (anc_header A HA') as (F0 & Fh & Fo & _).
+      apply Fr25; try lia. intros T HT. pose proof (member_facts T HT) as M.
+      pose proof (member_clear_anc T A M HA') as C. unfold clear_of in *. lia.
+    + intros T HT. rewrite Forall_forall in M4. pose proof (M4 T HT) as M. pose proof stco_ok_all as OK. rewrite Forall_forall in OK.
+      apply (tab_updated_transfer 4 g3 f' T ltac:(lia) M (OK T HT) (U3 T HT)). destruct (mv_bounds T M).
+      eapply agree_trans; [apply Fr4; try lia|apply Fr5; try lia].
+      * intros T' HT'. rewrite Forall_forall in M8. apply leaves_apart; auto. intros ->. apply (N48 T HT'). exact HT.
+      * intros T' HT'. rewrite Forall_forall in MT. apply leaves_apart; auto. intros ->. apply (N4T T HT'). exact HT.
+    + intros T HT. rewrite Forall_forall in M8. pose proof (M8 T HT) as M. pose proof co64_ok_all as OK. rewrite Forall_forall in OK.
+      apply (tab_updated_transfer 8 g4 f' T ltac:(lia) M (OK T HT) (U4 T HT)). destruct (mv_bounds T M).
+      apply Fr5; try lia. intros T' HT'. rewrite Forall_forall in MT. apply leaves_apart; auto. intros ->. apply (N8T T HT'). exact HT.
+    + exact U5.
+Qed.
 End Surgery.
